@@ -175,9 +175,16 @@ void World::exec_track_op(const Step& s)
                 auto f1 = render_snapshot(r), f2 = render_snapshot(r2);
                 for (size_t i = 0; i < f1.size(); ++i)
                     if (f1[i].second != f2[i].second)
+                    {
+                        // 1.x derives an absent BPM from the first grid segment: the same documented
+                        // alternative the field table accepts for any snapshot write
+                        std::string why;
+                        if (f1[i].first == "bpm" && !v2 && !r.bpm && field_rule(F_BPM, r, r2, false, why))
+                            continue;
                         report("C01", "C01|rewrite|" + fam() + "|fixed-point:" + f1[i].first,
                                "writing a track's own snapshot back changed " + f1[i].first + " from " +
                                    f1[i].second + " to " + f2[i].second);
+                    }
                 probes.hit("fixed_point_checked");
             }
             catch (const std::exception& ex)
@@ -818,6 +825,10 @@ void World::exec_step(const Step& s)
     if (exec_foreign_op(s))
         return;
     if (exec_hostile_op(s))
+        return;
+    if (exec_detect_op(s))
+        return;
+    if (exec_drift_op(s))
         return;
     note("unknown op " + s.op);
 }
